@@ -9,6 +9,7 @@ import (
 	"strconv"
 	"strings"
 	"time"
+	"unicode/utf8"
 )
 
 // Type is a PostgreSQL type OID. Only the handful of types that the
@@ -581,6 +582,27 @@ func checkIntRange(v int64, t Type) error {
 	return nil
 }
 
+// validateText enforces the server encoding (UTF8) on text coming from the
+// client, as PostgreSQL does: NUL bytes and invalid UTF-8 are rejected with
+// SQLSTATE 22021.
+func validateText(b []byte) error {
+	for i := 0; i < len(b); {
+		if b[i] == 0 {
+			return &pgError{Code: "22021", Message: "invalid byte sequence for encoding \"UTF8\": 0x00"}
+		}
+		if b[i] < utf8.RuneSelf {
+			i++
+			continue
+		}
+		r, n := utf8.DecodeRune(b[i:])
+		if r == utf8.RuneError && n <= 1 {
+			return &pgError{Code: "22021", Message: fmt.Sprintf("invalid byte sequence for encoding \"UTF8\": 0x%02x", b[i])}
+		}
+		i += n
+	}
+	return nil
+}
+
 // ---------------------------------------------------------------------------
 // binary wire format
 
@@ -667,6 +689,9 @@ func binaryIn(b []byte, t Type) (Datum, error) {
 		}
 		return int64(binary.BigEndian.Uint64(b)), nil
 	case TText, TUnknown:
+		if err := validateText(b); err != nil {
+			return nil, err
+		}
 		return string(b), nil
 	case TBytea:
 		return append([]byte{}, b...), nil
